@@ -1,6 +1,863 @@
-From Coq Require Import ZArith NArith List Bool Lia.
+(* C40 — proofs.  Statements of the property theorems are in Props/C40.v. *)
+From Coq Require Import ZArith NArith List Bool Lia Permutation Sorted.
+From Coq Require Import ZifyBool ZifyNat ZifyN.
 From KV Require Import Model.C40.
 Import ListNotations.
 Open Scope N_scope.
-Lemma insert_length : forall x l, length (insert x l) = S (length l).
-Proof. induction l as [|y t IH]; simpl; auto. destruct (x <=? y); simpl; auto. Qed.
+
+Ltac Zify.zify_post_hook ::= Z.div_mod_to_equations.
+Arguments word : simpl never.
+Arguments pad32 : simpl never.
+Arguments hb : simpl never.
+Arguments two256 : simpl never.
+
+(* ------------------------------------------------------------------ lengths and encodings *)
+
+Lemma lenN_app {A} (a b : list A) : lenN (a ++ b) = lenN a + lenN b.
+Proof. unfold lenN. rewrite app_length. lia. Qed.
+Lemma lenN_cons {A} (x : A) (l : list A) : lenN (x :: l) = 1 + lenN l.
+Proof. unfold lenN. simpl length. lia. Qed.
+Lemma lenN_nil {A} : lenN (@nil A) = 0.
+Proof. reflexivity. Qed.
+
+Lemma be_bytes_length n v : length (be_bytes n v) = n.
+Proof.
+  revert v. induction n as [|n IH]; intros v; simpl; auto.
+  rewrite app_length, IH. simpl. lia.
+Qed.
+Lemma word_length v : length (word v) = 32%nat.
+Proof. apply be_bytes_length. Qed.
+Lemma lenN_word v : lenN (word v) = 32.
+Proof. unfold lenN. rewrite word_length. reflexivity. Qed.
+
+Lemma be_value_app a b : be_value (a ++ [b]) = be_value a * 256 + b.
+Proof. unfold be_value. rewrite fold_left_app. reflexivity. Qed.
+Lemma be_value_be_bytes n v : v < 256 ^ N.of_nat n -> be_value (be_bytes n v) = v.
+Proof.
+  revert v. induction n as [|n IH]; intros v Hv.
+  - simpl in *. unfold be_value. simpl. lia.
+  - cbn [be_bytes]. rewrite be_value_app, IH.
+    + pose proof (N.div_mod v 256). lia.
+    + rewrite Nat2N.inj_succ, N.pow_succ_r' in Hv.
+      apply N.div_lt_upper_bound; lia.
+Qed.
+
+Lemma flat_map_word_length l : length (flat_map word l) = (32 * length l)%nat.
+Proof.
+  induction l as [|x t IH]; [reflexivity|]. cbn [flat_map]. rewrite app_length, word_length, IH.
+  simpl length. lia.
+Qed.
+Lemma pad32_length b : exists k, length (pad32 b) = (32 * k)%nat.
+Proof.
+  unfold pad32. rewrite app_length, repeat_length.
+  exists (N.to_nat ((lenN b + (32 - lenN b mod 32) mod 32) / 32)).
+  unfold lenN. lia.
+Qed.
+Global Opaque word pad32.
+Lemma enc_val_length a : exists k, length (enc_val a) = (32 * k)%nat.
+Proof.
+  destruct a as [v|b|l]; cbn [enc_val].
+  - exists 1%nat. rewrite word_length. reflexivity.
+  - destruct (pad32_length b) as [k Hk]. exists (S k). rewrite app_length, word_length, Hk. lia.
+  - exists (S (length l)). rewrite app_length, word_length, flat_map_word_length. lia.
+Qed.
+Lemma tails_length args : exists k, length (tails args) = (32 * k)%nat.
+Proof.
+  induction args as [|a t [k Hk]]; cbn [tails].
+  - exists 0%nat. reflexivity.
+  - rewrite app_length, Hk. destruct (is_dyn a).
+    + destruct (enc_val_length a) as [j Hj]. exists (j + k)%nat. lia.
+    + exists k. cbn [length]. lia.
+Qed.
+Lemma heads_length args off : length (heads args off) = (32 * length args)%nat.
+Proof.
+  revert off. induction args as [|a t IH]; intros off; [reflexivity|].
+  cbn [heads]. destruct a as [v|b|l]; cbn [is_dyn enc_val]; rewrite app_length, IH, word_length;
+    cbn [length]; lia.
+Qed.
+
+(* abi.encode output: a whole number of words, 32 bytes of head per argument *)
+Lemma abi_encode_length args :
+  exists k, length (abi_encode args) = (32 * (length args + k))%nat.
+Proof.
+  unfold abi_encode. destruct (tails_length args) as [k Hk]. exists k.
+  rewrite app_length, heads_length, Hk. lia.
+Qed.
+
+Lemma heads_app pre post off :
+  heads (pre ++ post) off = heads pre off ++ heads post (off + lenN (tails pre)).
+Proof.
+  revert off. induction pre as [|a t IH]; intros off; cbn [heads tails app].
+  - f_equal. rewrite lenN_nil. lia.
+  - destruct (is_dyn a); rewrite IH; cbn [app]; rewrite ?lenN_app, <- ?app_assoc, ?N.add_assoc; reflexivity.
+Qed.
+Lemma tails_app pre post : tails (pre ++ post) = tails pre ++ tails post.
+Proof. induction pre as [|a t IH]; cbn [tails app]; auto. rewrite IH, app_assoc. reflexivity. Qed.
+
+(* the head slot of a dynamic argument holds exactly the position at which its encoding starts *)
+Lemma abi_offset_points_to_tail pre a post :
+  is_dyn a = true ->
+  exists h1 h2 off,
+    abi_encode (pre ++ a :: post) = h1 ++ word off ++ h2 ++ tails pre ++ enc_val a ++ tails post
+    /\ length h1 = (32 * length pre)%nat
+    /\ off = lenN (h1 ++ word off ++ h2 ++ tails pre).
+Proof.
+  intros Hd. unfold abi_encode.
+  set (n := 32 * lenN (pre ++ a :: post)).
+  rewrite heads_app, tails_app. cbn [heads tails]. rewrite Hd.
+  exists (heads pre n), (heads post (n + lenN (tails pre) + lenN (enc_val a))), (n + lenN (tails pre)).
+  repeat rewrite <- app_assoc. split; [reflexivity|]. split; [apply heads_length|].
+  rewrite !lenN_app, lenN_word. unfold lenN at 2 3. rewrite !heads_length.
+  subst n. rewrite lenN_app, lenN_cons. unfold lenN. lia.
+Qed.
+
+(* go-ethereum's packing loop computes abi.encode *)
+Lemma go_pack_loop_spec args : forall off ret var,
+  go_pack_loop args off ret var = ret ++ heads args off ++ var ++ tails args.
+Proof.
+  induction args as [|a t IH]; intros off ret var; cbn [go_pack_loop heads tails app].
+  - rewrite app_nil_r. reflexivity.
+  - destruct (is_dyn a); rewrite IH; repeat rewrite <- app_assoc; reflexivity.
+Qed.
+Lemma fold_head_size (args : list aval) k :
+  fold_left (fun acc _ => acc + 32) args k = k + 32 * lenN args.
+Proof.
+  revert k. induction args as [|a t IH]; intros k; cbn [fold_left].
+  - unfold lenN. cbn [length]. lia.
+  - rewrite IH, lenN_cons. lia.
+Qed.
+Lemma go_pack_eq args : go_pack args = abi_encode args.
+Proof.
+  unfold go_pack, abi_encode. rewrite go_pack_loop_spec, fold_head_size. cbn [app]. reflexivity.
+Qed.
+
+(* ------------------------------------------------------------------ sorting *)
+
+Lemma insert_perm x l : Permutation (insert x l) (x :: l).
+Proof.
+  induction l as [|y t IH]; simpl; auto. destruct (x <=? y); auto.
+  etransitivity; [apply perm_skip, IH | apply perm_swap].
+Qed.
+Lemma sortN_perm l : Permutation (sortN l) l.
+Proof.
+  induction l as [|a t IH]; simpl; auto.
+  etransitivity; [apply insert_perm | apply perm_skip, IH].
+Qed.
+Lemma insert_sorted x l : StronglySorted N.le l -> StronglySorted N.le (insert x l).
+Proof.
+  induction l as [|y t IH]; intros Hs; simpl.
+  - constructor; constructor.
+  - destruct (x <=? y) eqn:E.
+    + constructor; auto. inversion Hs; subst. constructor; [lia|].
+      eapply Forall_impl; [|eassumption]. intros; simpl in *; lia.
+    + inversion Hs; subst. constructor; auto.
+      eapply Permutation_Forall; [symmetry; apply insert_perm|]. constructor; auto. lia.
+Qed.
+Lemma sortN_sorted l : StronglySorted N.le (sortN l).
+Proof. induction l; simpl; [constructor | apply insert_sorted; auto]. Qed.
+
+Lemma sorted_perm_eq a : forall b,
+  StronglySorted N.le a -> StronglySorted N.le b -> Permutation a b -> a = b.
+Proof.
+  induction a as [|x a IH]; intros b Ha Hb Hp.
+  - apply Permutation_nil in Hp. auto.
+  - destruct b as [|y b]; [apply Permutation_sym, Permutation_nil in Hp; discriminate|].
+    inversion Ha; subst. inversion Hb; subst.
+    assert (x = y).
+    { assert (In x (y :: b)) by (eapply Permutation_in; [eassumption | left; auto]).
+      assert (In y (x :: a)) by (eapply Permutation_in; [symmetry; eassumption | left; auto]).
+      rewrite Forall_forall in *. simpl in *.
+      destruct H as [->|Hx]; auto. destruct H0 as [->|Hy]; auto.
+      specialize (H2 _ Hy). specialize (H4 _ Hx). lia. }
+    subst. f_equal. apply IH; auto. eapply Permutation_cons_inv; eassumption.
+Qed.
+Lemma sortN_perm_eq a b : Permutation a b -> sortN a = sortN b.
+Proof.
+  intros Hp. apply sorted_perm_eq; auto using sortN_sorted.
+  etransitivity; [apply sortN_perm|]. etransitivity; [eassumption|]. symmetry. apply sortN_perm.
+Qed.
+
+Lemma sorted_nodup_lt l : StronglySorted N.le l -> NoDup l -> StronglySorted N.lt l.
+Proof.
+  induction l as [|x t IH]; intros Hs Hn; [constructor|].
+  inversion Hs; subst. inversion Hn; subst. constructor; auto.
+  rewrite Forall_forall in *. intros y Hy. specialize (H2 _ Hy).
+  assert (x <> y) by (intros ->; auto). lia.
+Qed.
+Lemma sortN_nodup_lt l : NoDup l -> StronglySorted N.lt (sortN l).
+Proof.
+  intros Hn. apply sorted_nodup_lt; [apply sortN_sorted|].
+  eapply Permutation_NoDup; [symmetry; apply sortN_perm | assumption].
+Qed.
+Lemma strictly_increasing_of_sorted l : StronglySorted N.lt l -> strictly_increasing l = true.
+Proof.
+  induction l as [|a t IH]; intros Hs; [reflexivity|].
+  inversion Hs; subst. destruct t as [|b t']; [reflexivity|].
+  change (strictly_increasing (a :: b :: t')) with ((a <? b) && strictly_increasing (b :: t')).
+  rewrite IH by assumption.
+  inversion H2; subst. rewrite andb_true_r. lia.
+Qed.
+Lemma sorted_of_strictly_increasing l : strictly_increasing l = true -> StronglySorted N.lt l.
+Proof.
+  induction l as [|a t IH]; intros H; [constructor|].
+  destruct t as [|b t']; [constructor; constructor|].
+  change (strictly_increasing (a :: b :: t')) with ((a <? b) && strictly_increasing (b :: t')) in H.
+  apply andb_true_iff in H as [Hab Ht].
+  specialize (IH Ht). constructor; auto.
+  inversion IH; subst. constructor; [lia|].
+  eapply Forall_impl; [|eassumption]. intros; simpl in *; lia.
+Qed.
+
+Lemma last_Forall (P : N -> Prop) l d : l <> [] -> Forall P l -> P (last l d).
+Proof.
+  induction l as [|a t IH]; intros Hne Hf; [congruence|].
+  inversion Hf; subst. destruct t as [|b t']; [assumption|].
+  change (last (a :: b :: t') d) with (last (b :: t') d). apply IH; [discriminate | assumption].
+Qed.
+Lemma lenN_perm {A} (a b : list A) : Permutation a b -> lenN a = lenN b.
+Proof. intros H. unfold lenN. rewrite (Permutation_length H). reflexivity. Qed.
+Lemma lenN_sortN l : lenN (sortN l) = lenN l.
+Proof. apply lenN_perm, sortN_perm. Qed.
+
+(* ------------------------------------------------------------------ public key formats *)
+
+Lemma be_bytes_zero n : be_bytes n 0 = repeat 0 n.
+Proof.
+  induction n as [|n IH]; [reflexivity|]. cbn [be_bytes].
+  rewrite N.div_0_l, N.mod_0_l, IH by lia.
+  change [0] with (repeat 0 1). rewrite <- repeat_app. f_equal. lia.
+Qed.
+Lemma min_be_f_spec : forall fuel v n,
+  v < 256 ^ N.of_nat fuel -> v < 256 ^ N.of_nat n ->
+  (length (min_be_f fuel v) <= n)%nat /\
+  repeat 0 (n - length (min_be_f fuel v)) ++ min_be_f fuel v = be_bytes n v.
+Proof.
+  induction fuel as [|f IH]; intros v n Hf Hn.
+  - simpl in Hf. assert (v = 0) by lia. subst. simpl. rewrite app_nil_r, Nat.sub_0_r, be_bytes_zero.
+    split; [lia | reflexivity].
+  - cbn [min_be_f]. destruct (v =? 0) eqn:E.
+    + assert (v = 0) by lia. subst. simpl. rewrite app_nil_r, Nat.sub_0_r, be_bytes_zero.
+      split; [lia | reflexivity].
+    + destruct n as [|k]; [simpl in Hn; lia|].
+      rewrite Nat2N.inj_succ, N.pow_succ_r' in Hf, Hn.
+      assert (Hf' : v / 256 < 256 ^ N.of_nat f) by (apply N.div_lt_upper_bound; lia).
+      assert (Hk' : v / 256 < 256 ^ N.of_nat k) by (apply N.div_lt_upper_bound; lia).
+      destruct (IH (v / 256) k Hf' Hk') as [Hl He].
+      rewrite app_length. simpl length. split; [lia|].
+      cbn [be_bytes]. rewrite <- He, <- app_assoc.
+      replace (S k - (length (min_be_f f (v / 256)) + 1))%nat
+        with (k - length (min_be_f f (v / 256)))%nat by lia.
+      reflexivity.
+Qed.
+Lemma two256_eq : two256 = 256 ^ N.of_nat 32.
+Proof. reflexivity. Qed.
+Lemma left_pad32_min_be v : v < two256 -> left_pad32 (min_be v) = Some (be_bytes 32 v).
+Proof.
+  intros Hv. unfold min_be, left_pad32.
+  assert (Hf : v < 256 ^ N.of_nat (N.to_nat (N.size v))).
+  { rewrite N2Nat.id. eapply N.lt_le_trans; [apply N.size_gt|].
+    apply N.pow_le_mono_l. lia. }
+  rewrite two256_eq in Hv.
+  destruct (min_be_f_spec _ _ 32%nat Hf Hv) as [Hl He].
+  replace (32 <? lenN (min_be_f (N.to_nat (N.size v)) v)) with false by (unfold lenN; lia).
+  rewrite He. reflexivity.
+Qed.
+(* convertPubKeyToChainFormat = X || Y, 32 bytes each = elliptic.Marshal without the 04 *)
+Lemma pubkey_chain_format_ok x y :
+  x < two256 -> y < two256 ->
+  pubkey_chain_format x y = Some (be_bytes 32 x ++ be_bytes 32 y).
+Proof.
+  intros Hx Hy. unfold pubkey_chain_format. rewrite !left_pad32_min_be by assumption. reflexivity.
+Qed.
+Lemma marshal_tl x y :
+  x < two256 -> y < two256 ->
+  option_map (@tl N) (marshal_uncompressed x y) = pubkey_chain_format x y.
+Proof.
+  intros Hx Hy. rewrite pubkey_chain_format_ok by assumption. unfold marshal_uncompressed.
+  replace (x <? two256) with true by lia. replace (y <? two256) with true by lia. reflexivity.
+Qed.
+Lemma key64_length x y : lenN (be_bytes 32 x ++ be_bytes 32 y) = 64.
+Proof. unfold lenN. rewrite app_length, !be_bytes_length. reflexivity. Qed.
+
+(* ------------------------------------------------------------------ the signatures map *)
+
+Lemma assoc_in k (m : list (N * bytes)) : In k (map fst m) -> In (k, assoc k m) m.
+Proof.
+  induction m as [|[k' v] t IH]; cbn [map fst In assoc]; [tauto|].
+  intros [->|H].
+  - rewrite N.eqb_refl. left; reflexivity.
+  - destruct (k =? k') eqn:E.
+    + apply N.eqb_eq in E; subst. left; reflexivity.
+    + right; auto.
+Qed.
+Definition chunks (m : list (N * bytes)) (keys : list N) : list bytes :=
+  map (fun k => assoc k m) keys.
+Lemma concat_sigs_ok m keys :
+  Forall (fun k => lenN (assoc k m) = 65) keys ->
+  concat_sigs m keys = Some (concat (chunks m keys)).
+Proof.
+  induction 1 as [|k t Hk Ht IH]; cbn [concat_sigs chunks map concat]; auto.
+  rewrite Hk. cbn [N.eqb Pos.eqb]. fold (chunks m t). rewrite IH. reflexivity.
+Qed.
+Lemma concat_len65 (cs : list bytes) : Forall (fun c => lenN c = 65) cs -> lenN (concat cs) = 65 * lenN cs.
+Proof.
+  induction 1 as [|c t Hc Ht IH]; cbn [concat]; [reflexivity|].
+  rewrite lenN_app, lenN_cons, IH, Hc. lia.
+Qed.
+Lemma chunks_len65 m keys :
+  Forall (fun k => lenN (assoc k m) = 65) keys -> Forall (fun c => lenN c = 65) (chunks m keys).
+Proof. unfold chunks. intros H. rewrite Forall_map. exact H. Qed.
+Lemma lenN_map {A B} (f : A -> B) l : lenN (map f l) = lenN l.
+Proof. unfold lenN. rewrite map_length. reflexivity. Qed.
+
+(* every key of a map whose values are all 65 bytes long reads a 65-byte value *)
+Lemma sigs_all65 (m : list (N * bytes)) :
+  (forall k s, In (k, s) m -> lenN s = 65) ->
+  Forall (fun k => lenN (assoc k m) = 65) (sortN (map fst m)).
+Proof.
+  intros H. rewrite Forall_forall. intros k Hk.
+  apply (Permutation_in _ (sortN_perm _)) in Hk. apply assoc_in in Hk. eauto.
+Qed.
+Lemma sigs_chain_format_ok (m : list (N * bytes)) :
+  (forall k s, In (k, s) m -> lenN s = 65) ->
+  sigs_chain_format m = Some (sortN (map fst m), concat (chunks m (sortN (map fst m)))) /\
+  lenN (concat (chunks m (sortN (map fst m)))) = 65 * lenN m.
+Proof.
+  intros H. pose proof (sigs_all65 m H) as Ha. unfold sigs_chain_format. cbv zeta.
+  rewrite (concat_sigs_ok _ _ Ha). split; [reflexivity|].
+  rewrite (concat_len65 _ (chunks_len65 _ _ Ha)). unfold chunks.
+  rewrite lenN_map, lenN_sortN, lenN_map. reflexivity.
+Qed.
+
+(* ------------------------------------------------------------------ validateFields *)
+
+Lemma nth0_Forall (P : N -> Prop) l d : l <> [] -> Forall P l -> P (nth 0 l d).
+Proof. destruct l; [congruence|]. intros _ H. inversion H; subst. assumption. Qed.
+
+Lemma indices_ok gs l :
+  l <> [] -> StronglySorted N.lt l -> Forall (fun m => 1 <= m <= gs) l ->
+  (nth 0 l 0 <? 1) || (gs <? last l 0) || negb (strictly_increasing l) = false.
+Proof.
+  intros Hne Hs Hf. rewrite (strictly_increasing_of_sorted _ Hs).
+  pose proof (nth0_Forall _ l 0 Hne Hf) as H0. pose proof (last_Forall _ l 0 Hne Hf) as Hl.
+  cbv beta in H0, Hl. lia.
+Qed.
+
+Lemma validate_fields_valid p pk misb sigs signing :
+  lenN pk = 64 ->
+  StronglySorted N.lt misb -> Forall (fun m => 1 <= m <= groupSize p) misb ->
+  StronglySorted N.lt signing -> Forall (fun m => 1 <= m <= groupSize p) signing ->
+  lenN sigs = 65 * lenN signing ->
+  1 <= lenN signing -> groupThreshold p <= lenN signing -> lenN signing <= groupSize p ->
+  activeThreshold p + lenN misb <= groupSize p ->
+  validate_fields p pk misb sigs signing = Valid.
+Proof.
+  intros Hpk Hms Hmf Hss Hsf Hlen H1 Hthr Hgs Hact.
+  unfold validate_fields. cbv zeta.
+  replace (negb (lenN pk =? 64)) with false by lia.
+  replace (groupSize p <? lenN misb) with false by lia.
+  replace (groupSize p - lenN misb <? activeThreshold p) with false by lia.
+  assert (Hm : (1 <? lenN misb)
+               && ((nth 0 misb 0 <? 1) || (groupSize p <? last misb 0) || negb (strictly_increasing misb))
+               = false).
+  { destruct misb as [|m0 mt]; [reflexivity|].
+    rewrite indices_ok by (auto; discriminate). apply andb_false_r. }
+  rewrite Hm.
+  replace (lenN sigs =? 0) with false by lia.
+  replace (negb (lenN sigs mod 65 =? 0)) with false by lia.
+  replace (negb (lenN sigs / 65 =? lenN signing)) with false by lia.
+  replace (lenN sigs / 65 <? groupThreshold p) with false by lia.
+  replace (groupSize p <? lenN sigs / 65) with false by lia.
+  destruct signing as [|s0 st]; [rewrite lenN_nil in H1; lia|].
+  pose proof (indices_ok (groupSize p) (s0 :: st)) as Hi.
+  cbn [nth] in Hi. rewrite Hi by (auto; discriminate). reflexivity.
+Qed.
+
+(* ------------------------------------------------------------------ counting *)
+
+Lemma memN_In x l : memN x l = true <-> In x l.
+Proof.
+  unfold memN. rewrite existsb_exists. split.
+  - intros [y [Hy E]]. apply N.eqb_eq in E. subst. assumption.
+  - intros H. exists x. split; [assumption | apply N.eqb_refl].
+Qed.
+Lemma nodupb_NoDup l : nodupb l = true -> NoDup l.
+Proof.
+  induction l as [|x t IH]; intros H; [constructor|].
+  cbn [nodupb] in H. apply andb_true_iff in H as [Hx Ht]. constructor; auto.
+  intros Hin. apply memN_In in Hin. rewrite Hin in Hx. discriminate.
+Qed.
+Lemma seqN_In a n x : In x (seqN a n) <-> a <= x < a + N.of_nat n.
+Proof.
+  revert a. induction n as [|n IH]; intros a; cbn [seqN In].
+  - lia.
+  - rewrite IH. lia.
+Qed.
+Lemma seqN_length a n : length (seqN a n) = n.
+Proof. revert a. induction n; intros; cbn [seqN length]; auto. Qed.
+Lemma seqN_sorted a n : StronglySorted N.lt (seqN a n).
+Proof.
+  revert a. induction n as [|n IH]; intros a; cbn [seqN]; constructor; auto.
+  rewrite Forall_forall. intros x Hx. apply seqN_In in Hx. lia.
+Qed.
+Lemma sorted_lt_NoDup l : StronglySorted N.lt l -> NoDup l.
+Proof.
+  induction 1 as [|x t Ht IH Hf]; constructor; auto.
+  intros Hin. rewrite Forall_forall in Hf. specialize (Hf _ Hin). lia.
+Qed.
+Lemma NoDup_app_disjoint (a b : list N) :
+  NoDup a -> NoDup b -> (forall x, In x a -> ~ In x b) -> NoDup (a ++ b).
+Proof.
+  induction a as [|x t IH]; intros Ha Hb Hd; [assumption|].
+  inversion Ha; subst. cbn [app]. constructor.
+  - rewrite in_app_iff. intros [H|H]; [auto | eapply Hd; [left; reflexivity | eassumption]].
+  - apply IH; auto. intros y Hy. apply Hd. right; assumption.
+Qed.
+(* distinct indices within [1, n] that avoid each other: at most n together *)
+Lemma disjoint_count n (a b : list N) :
+  NoDup a -> NoDup b -> (forall x, In x a -> ~ In x b) ->
+  (forall x, In x a -> 1 <= x <= n) -> (forall x, In x b -> 1 <= x <= n) ->
+  lenN a + lenN b <= n.
+Proof.
+  intros Ha Hb Hd Hra Hrb.
+  assert (Hi : incl (a ++ b) (seqN 1 (N.to_nat n))).
+  { intros x Hx. apply seqN_In. apply in_app_iff in Hx as [Hx|Hx]; [apply Hra in Hx | apply Hrb in Hx]; lia. }
+  pose proof (NoDup_incl_length (NoDup_app_disjoint _ _ Ha Hb Hd) Hi) as Hl.
+  rewrite app_length, seqN_length in Hl. unfold lenN. lia.
+Qed.
+
+(* ------------------------------------------------------------------ the members of the group *)
+
+(* the members whose (1-based) position is not listed in [misb]; [i] positions precede *)
+Fixpoint keep_from (i : N) (members misb : list N) : list N :=
+  match members with
+  | [] => []
+  | m :: t => if memN (i + 1) misb then keep_from (i + 1) t misb
+              else m :: keep_from (i + 1) t misb
+  end.
+Lemma keep_from_nil i members : keep_from i members [] = members.
+Proof. revert i. induction members as [|m t IH]; intros i; cbn [keep_from memN existsb]; [|rewrite IH]; reflexivity. Qed.
+Lemma keep_from_ext a b : (forall x, memN x a = memN x b) ->
+  forall members i, keep_from i members a = keep_from i members b.
+Proof. intros H. induction members as [|m t IH]; intros i; cbn [keep_from]; [reflexivity|]. rewrite H, !IH. reflexivity. Qed.
+Lemma memN_perm a b : Permutation a b -> forall x, memN x a = memN x b.
+Proof.
+  intros Hp x. destruct (memN x b) eqn:E.
+  - apply memN_In. apply memN_In in E. eapply Permutation_in; [symmetry|]; eassumption.
+  - destruct (memN x a) eqn:E'; [|reflexivity]. apply memN_In in E'.
+    assert (In x b) by (eapply Permutation_in; eassumption). apply memN_In in H. congruence.
+Qed.
+
+Lemma nth_error_app_len {A} (pre : list A) x t : nth_error (pre ++ x :: t) (length pre) = Some x.
+Proof. rewrite nth_error_app2 by lia. rewrite Nat.sub_diag. reflexivity. Qed.
+
+(* client: the ids of the non-misbehaved seats, by ascending index *)
+Lemma members_at_filter misb : forall members pre,
+  lenN pre + lenN members <= 255 ->
+  members_at (pre ++ members)
+    (filter (fun k => negb (memN k misb)) (seqN (lenN pre + 1) (length members)))
+  = Some (keep_from (lenN pre) members misb).
+Proof.
+  induction members as [|m t IH]; intros pre Hle; [reflexivity|].
+  cbn [length seqN filter keep_from].
+  assert (Hnext : members_at (pre ++ m :: t)
+            (filter (fun k => negb (memN k misb)) (seqN (lenN pre + 1 + 1) (length t)))
+          = Some (keep_from (lenN pre + 1) t misb)).
+  { specialize (IH (pre ++ [m])). rewrite <- app_assoc in IH. cbn [app] in IH.
+    replace (lenN (pre ++ [m])) with (lenN pre + 1) in IH by (rewrite lenN_app; reflexivity).
+    apply IH. rewrite lenN_cons in Hle. lia. }
+  destruct (memN (lenN pre + 1) misb); cbn [negb].
+  - exact Hnext.
+  - cbn [members_at]. rewrite Hnext. unfold member_at.
+    replace (N.to_nat ((lenN pre + 1 + 255) mod 256)) with (length pre)
+      by (rewrite lenN_cons in Hle; unfold lenN in *; lia).
+    rewrite nth_error_app_len. reflexivity.
+Qed.
+Lemma keep_from_length misb : forall members i,
+  length (keep_from i members misb)
+  = length (filter (fun k => negb (memN k misb)) (seqN (i + 1) (length members))).
+Proof.
+  induction members as [|m t IH]; intros i; [reflexivity|].
+  cbn [keep_from length seqN filter]. destruct (memN (i + 1) misb); cbn [negb length]; rewrite IH; reflexivity.
+Qed.
+
+(* contract: the loop of validateMembersHash *)
+Lemma sorted_nth_lt l : StronglySorted N.lt l ->
+  forall j1 j2, (j1 < j2 < length l)%nat -> nth j1 l 0 < nth j2 l 0.
+Proof.
+  induction 1 as [|x t Ht IH Hf]; intros j1 j2 Hj; cbn [length] in Hj; [lia|].
+  destruct j2 as [|j2]; [lia|]. destruct j1 as [|j1]; cbn [nth].
+  - rewrite Forall_forall in Hf. apply Hf. apply nth_In. lia.
+  - apply IH. lia.
+Qed.
+Definition inv (misb : list N) (i : N) (k : nat) : Prop :=
+  (k < length misb)%nat /\ (forall j, (j < k)%nat -> nth j misb 0 <= i) /\
+  (i + 1 <= nth k misb 0 \/ k = (length misb - 1)%nat).
+Lemma memN_under_inv misb i k : StronglySorted N.lt misb -> inv misb i k ->
+  memN (i + 1) misb = (nth k misb 0 =? i + 1).
+Proof.
+  intros Hs (Hk & Hb & Hm). destruct (nth k misb 0 =? i + 1) eqn:E.
+  - apply memN_In. apply N.eqb_eq in E. rewrite <- E. apply nth_In. assumption.
+  - destruct (memN (i + 1) misb) eqn:M; [|reflexivity]. exfalso.
+    apply memN_In in M. apply (In_nth _ _ 0) in M as (j & Hj & Hnj).
+    apply N.eqb_neq in E.
+    destruct (Nat.lt_trichotomy j k) as [Hlt|[->|Hgt]].
+    + specialize (Hb _ Hlt). lia.
+    + congruence.
+    + pose proof (sorted_nth_lt _ Hs k j ltac:(lia)). destruct Hm as [Hm|Hm]; lia.
+Qed.
+Lemma mh_loop_spec misb cap : StronglySorted N.lt misb -> Forall (fun m => 1 <= m) misb ->
+  forall members i k out,
+  inv misb i (N.to_nat k) ->
+  lenN out + lenN (keep_from i members misb) <= cap ->
+  mh_loop members i misb k cap out =
+  Some (out ++ keep_from i members misb
+            ++ repeat 0 (N.to_nat (cap - lenN out - lenN (keep_from i members misb)))).
+Proof.
+  intros Hs Hpos. induction members as [|m t IH]; intros i k out Hinv Hcap; cbn [mh_loop keep_from].
+  - cbn [app]. replace (cap - lenN out - lenN (@nil N)) with (cap - lenN out) by (unfold lenN; cbn [length]; lia).
+    reflexivity.
+  - pose proof Hinv as (Hk & Hb & Hm).
+    rewrite (nth_error_nth' misb 0 Hk).
+    assert (Hmk1 : 1 <= nth (N.to_nat k) misb 0)
+      by (rewrite Forall_forall in Hpos; apply Hpos; apply nth_In; assumption).
+    cbn [keep_from] in Hcap.
+    rewrite (memN_under_inv _ _ _ Hs Hinv) in Hcap |- *.
+    set (mk := nth (N.to_nat k) misb 0) in *.
+    replace (mk =? 0) with false by lia.
+    destruct (mk =? i + 1) eqn:E.
+    + replace (negb (i =? mk - 1)) with false by lia.
+      assert (Hk' : forall k', k' = (if k <? lenN misb - 1 then k + 1 else k) ->
+                               inv misb (i + 1) (N.to_nat k')).
+      { intros k' ->. unfold inv. destruct (k <? lenN misb - 1) eqn:Ek.
+        - replace (N.to_nat (k + 1)) with (S (N.to_nat k)) by lia.
+          split; [unfold lenN in Ek; lia|]. split.
+          + intros j Hj. destruct (Nat.eq_dec j (N.to_nat k)) as [->|Hne]; [fold mk; lia|].
+            specialize (Hb j ltac:(lia)). lia.
+          + left. pose proof (sorted_nth_lt _ Hs (N.to_nat k) (S (N.to_nat k))
+                                ltac:(unfold lenN in Ek; lia)). fold mk in H. lia.
+        - split; [assumption|]. split.
+          + intros j Hj. specialize (Hb j Hj). lia.
+          + right. unfold lenN in Ek. lia. }
+      destruct (k <? lenN misb - 1); (apply IH; [apply Hk'; reflexivity | exact Hcap]).
+    + replace (negb (i =? mk - 1)) with true by lia.
+      assert (Hc1 : lenN out + 1 + lenN (keep_from (i + 1) t misb) <= cap)
+        by (rewrite lenN_cons in Hcap; lia).
+      replace (lenN out <? cap) with true by lia.
+      rewrite IH.
+      * replace (cap - lenN (out ++ [m]) - lenN (keep_from (i + 1) t misb))
+          with (cap - lenN out - lenN (m :: keep_from (i + 1) t misb))
+          by (rewrite lenN_app, !lenN_cons; unfold lenN; cbn [length]; lia).
+        rewrite <- app_assoc. reflexivity.
+      * unfold inv. split; [assumption|]. split.
+        -- intros j Hj. specialize (Hb j Hj). lia.
+        -- destruct Hm as [Hm|Hm]; [left; fold mk in Hm; lia | right; assumption].
+      * rewrite lenN_app. unfold lenN at 2. cbn [length]. lia.
+Qed.
+Lemma contract_group_members_ok members misb :
+  StronglySorted N.lt misb -> Forall (fun m => 1 <= m) misb ->
+  lenN (keep_from 0 members misb) + lenN misb = lenN members ->
+  contract_group_members members misb = Some (keep_from 0 members misb).
+Proof.
+  intros Hs Hf Hcount. destruct misb as [|m0 mt].
+  - cbn [contract_group_members]. rewrite keep_from_nil. reflexivity.
+  - cbn [contract_group_members]. set (misb := m0 :: mt) in *.
+    replace (lenN members <? lenN misb) with false by lia.
+    rewrite (mh_loop_spec misb _ Hs Hf).
+    + cbn [app]. replace (lenN members - lenN misb - lenN (@nil N) - lenN (keep_from 0 members misb)) with 0
+        by (unfold lenN in *; cbn [length]; lia).
+      cbn [N.to_nat repeat]. rewrite app_nil_r. reflexivity.
+    + unfold inv. cbn [N.to_nat]. split; [subst misb; cbn [length]; lia|]. split; [intros j Hj; lia|].
+      left. subst misb. cbn [nth]. inversion Hf; subst. lia.
+    + unfold lenN in *. cbn [length]. lia.
+Qed.
+
+(* ------------------------------------------------------------------ the assembled result *)
+
+Lemma lt_le_sorted l : StronglySorted N.lt l -> StronglySorted N.le l.
+Proof.
+  induction 1 as [|x t Ht IH Hf]; constructor; auto.
+  eapply Forall_impl; [|eassumption]. intros; simpl in *; lia.
+Qed.
+Lemma filter_sorted (R : N -> N -> Prop) f l : StronglySorted R l -> StronglySorted R (filter f l).
+Proof.
+  induction 1 as [|x t Ht IH Hf]; cbn [filter]; [constructor|].
+  destruct (f x); auto. constructor; auto.
+  rewrite Forall_forall in *. intros y Hy. apply filter_In in Hy as [Hy _]. auto.
+Qed.
+
+Section Assembled.
+  Variables (p : params) (quorum : N) (i : dkg_in).
+  Hypothesis Hv : valid_in p quorum i.
+
+  Let n := lenN (i_members i).
+  Let misb := i_misbehaved i.
+  Let keys := map fst (i_sigs i).
+  Let compl := filter (fun k => negb (memN k misb)) (seqN 1 (length (i_members i))).
+
+  Lemma compl_In k : In k compl <-> In k (i_operating i).
+  Proof.
+    destruct Hv as (_ & _ & _ & _ & _ & _ & _ & _ & Hop & _).
+    unfold compl. rewrite filter_In, seqN_In, Hop, negb_true_iff.
+    fold misb. unfold lenN.
+    split; intros [H1 H2]; (split; [lia|]).
+    - intros Hin. apply memN_In in Hin. congruence.
+    - destruct (memN k misb) eqn:E; [|reflexivity]. apply memN_In in E. contradiction.
+  Qed.
+  Lemma oper_sorted_eq : sortN (i_operating i) = compl.
+  Proof.
+    destruct Hv as (_ & _ & _ & _ & _ & _ & _ & Hond & _).
+    apply sorted_perm_eq.
+    - apply sortN_sorted.
+    - apply lt_le_sorted, filter_sorted, seqN_sorted.
+    - etransitivity; [apply sortN_perm|]. apply NoDup_Permutation; auto.
+      + apply sorted_lt_NoDup, filter_sorted, seqN_sorted.
+      + intros x. symmetry. apply compl_In.
+  Qed.
+  Lemma oper_misb_count : lenN (i_operating i) + lenN misb = n.
+  Proof.
+    destruct Hv as (_ & _ & _ & _ & _ & Hmnd & Hmr & Hond & Hop & _).
+    assert (Hp : Permutation (i_operating i ++ misb) (seqN 1 (length (i_members i)))).
+    { apply NoDup_Permutation.
+      - apply NoDup_app_disjoint; auto. intros x Hx. apply Hop in Hx. tauto.
+      - apply sorted_lt_NoDup, seqN_sorted.
+      - intros x. rewrite in_app_iff, seqN_In, Hop. fold misb. unfold lenN in *.
+        split.
+        + intros [[H _]|H]; [|apply Hmr in H]; lia.
+        + intros H. destruct (in_dec N.eq_dec x misb); [right; assumption | left; split; [lia | assumption]]. }
+    apply Permutation_length in Hp. rewrite app_length, seqN_length in Hp.
+    unfold n, lenN. lia.
+  Qed.
+
+  Definition model_result : assembled :=
+    {| a_submitter := i_submitter i;
+       a_pubkey := be_bytes 32 (i_x i) ++ be_bytes 32 (i_y i);
+       a_misbehaved := sortN misb;
+       a_sigs := concat (chunks (i_sigs i) (sortN keys));
+       a_signing := sortN keys;
+       a_members := i_members i;
+       a_mh_pre := client_members_preimage (keep_from 0 (i_members i) misb) |}.
+
+  Lemma sigs65 : forall k s, In (k, s) (i_sigs i) -> lenN s = 65.
+  Proof. destruct Hv as (_ & _ & _ & _ & _ & _ & _ & _ & _ & _ & Hs & _). intros k s H. apply Hs in H. tauto. Qed.
+
+  Lemma assemble_spec : assemble i = Ok model_result /\ submit quorum i = Ok model_result.
+  Proof.
+    assert (Ha : assemble i = Ok model_result).
+    { pose proof Hv as (_ & H255 & _ & _ & _ & _ & _ & _ & _ & _ & _ & _ & Hx & Hy & _).
+      unfold assemble. rewrite (pubkey_chain_format_ok _ _ Hx Hy).
+      destruct (sigs_chain_format_ok _ sigs65) as [-> _].
+      rewrite oper_sorted_eq.
+      pose proof (members_at_filter misb (i_members i) [] ltac:(unfold lenN in *; cbn [length]; lia)) as Hm.
+      cbn [app] in Hm. change (lenN (@nil N) + 1) with 1 in Hm. change (lenN (@nil N)) with 0 in Hm.
+      unfold compl. rewrite Hm. reflexivity. }
+    split; [assumption|]. unfold submit.
+    destruct Hv as (_ & _ & _ & _ & _ & _ & _ & _ & _ & _ & _ & Hq & _).
+    replace (lenN (i_sigs i) <? quorum) with false by lia. assumption.
+  Qed.
+
+  Lemma keys_range : forall k, In k keys -> 1 <= k <= n /\ ~ In k misb.
+  Proof.
+    destruct Hv as (_ & _ & _ & _ & _ & _ & _ & _ & Hop & _ & Hs & _).
+    intros k Hk. apply assoc_in in Hk. apply Hs in Hk as [Hk _]. apply Hop in Hk. exact Hk.
+  Qed.
+
+  Lemma result_sorted_in_range :
+    StronglySorted N.lt (a_misbehaved model_result) /\
+    Forall (fun m => 1 <= m <= n) (a_misbehaved model_result) /\
+    StronglySorted N.lt (a_signing model_result) /\
+    Forall (fun m => 1 <= m <= n) (a_signing model_result).
+  Proof.
+    destruct Hv as (_ & _ & _ & _ & _ & Hmnd & Hmr & _ & _ & Hsnd & _).
+    cbn [model_result a_misbehaved a_signing]. repeat split.
+    - apply sortN_nodup_lt. assumption.
+    - eapply Permutation_Forall; [symmetry; apply sortN_perm|]. rewrite Forall_forall. exact Hmr.
+    - apply sortN_nodup_lt. assumption.
+    - eapply Permutation_Forall; [symmetry; apply sortN_perm|]. rewrite Forall_forall.
+      intros k Hk. apply keys_range in Hk. tauto.
+  Qed.
+
+  Lemma result_fields_valid :
+    validate_fields p (a_pubkey model_result) (a_misbehaved model_result) (a_sigs model_result)
+                    (a_signing model_result) = Valid.
+  Proof.
+    destruct result_sorted_in_range as (Hms & Hmf & Hss & Hsf).
+    pose proof Hv as (Hn & _ & Hq1 & Hqt & Hqa & Hmnd & Hmr & _ & _ & Hsnd & _ & Hq & _).
+    fold n in Hn. rewrite Hn in Hmf, Hsf.
+    assert (Hcount : lenN keys + lenN misb <= n).
+    { apply disjoint_count; auto.
+      - intros x Hx. apply keys_range in Hx. tauto.
+      - intros x Hx. apply keys_range in Hx. tauto. }
+    assert (Hk : lenN keys = lenN (i_sigs i)) by (unfold keys; apply lenN_map).
+    apply validate_fields_valid;
+      [ apply key64_length | exact Hms | exact Hmf | exact Hss | exact Hsf | | | | | ];
+      cbn [model_result a_sigs a_signing a_misbehaved]; rewrite ?lenN_sortN; fold keys; try lia.
+    destruct (sigs_chain_format_ok _ sigs65) as [_ He]. fold keys in He. rewrite He. lia.
+  Qed.
+
+  (* the members hash: the contract recomputes exactly the bytes the client hashed *)
+  Lemma result_members_preimage :
+    contract_members_preimage (a_members model_result) (a_misbehaved model_result)
+    = Some (a_mh_pre model_result).
+  Proof.
+    destruct result_sorted_in_range as (Hms & Hmf & _ & _).
+    cbn [model_result a_members a_misbehaved a_mh_pre] in *.
+    unfold contract_members_preimage, client_members_preimage.
+    assert (He : keep_from 0 (i_members i) (sortN misb) = keep_from 0 (i_members i) misb).
+    { apply keep_from_ext. apply memN_perm, sortN_perm. }
+    rewrite contract_group_members_ok.
+    - rewrite He, go_pack_eq. reflexivity.
+    - assumption.
+    - eapply Forall_impl; [|exact Hmf]. intros; simpl in *; lia.
+    - rewrite He, lenN_sortN. unfold lenN at 1. rewrite keep_from_length.
+      change (0 + 1) with 1. fold compl. rewrite <- oper_sorted_eq.
+      pose proof oper_misb_count as Hc. pose proof (lenN_sortN (i_operating i)) as Hl.
+      unfold n, lenN in *. lia.
+  Qed.
+
+  (* the hash every supporter signs: whatever order it lists the misbehaved members in *)
+  Lemma result_sig_preimage : forall misb', Permutation misb' misb ->
+    client_sig_preimage (i_chainid i) (i_x i) (i_y i) misb' (i_start i)
+    = Some (contract_sig_preimage (i_chainid i) (a_pubkey model_result) (a_misbehaved model_result)
+                                  (i_start i)).
+  Proof.
+    intros misb' Hp.
+    destruct Hv as (_ & _ & _ & _ & _ & _ & _ & _ & _ & _ & _ & _ & Hx & Hy & Hst & _).
+    unfold client_sig_preimage, marshal_uncompressed, contract_sig_preimage.
+    replace (i_x i <? two256) with true by lia. replace (i_y i <? two256) with true by lia.
+    cbn [andb tl]. rewrite key64_length. cbn [N.eqb Pos.eqb].
+    rewrite go_pack_eq. unfold start_word_value.
+    replace (i_start i <? 2 ^ 63) with true by lia.
+    rewrite (sortN_perm_eq _ _ Hp). reflexivity.
+  Qed.
+
+  (* the wallet id: keccak256 over the same 64 bytes on both sides *)
+  Lemma result_wallet_preimage :
+    client_wallet_preimage (i_x i) (i_y i) = Some (contract_wallet_preimage (a_pubkey model_result))
+    /\ lenN (a_pubkey model_result) = 64.
+  Proof.
+    destruct Hv as (_ & _ & _ & _ & _ & _ & _ & _ & _ & _ & _ & _ & Hx & Hy & _).
+    unfold client_wallet_preimage. rewrite (pubkey_chain_format_ok _ _ Hx Hy).
+    split; [reflexivity | apply key64_length].
+  Qed.
+End Assembled.
+
+(* ------------------------------------------------------------------ Ethereum signed-message prefix *)
+Lemma eth_preimage_eq msg : lenN msg = 32 -> client_eth_preimage msg = eth_signed_preimage msg.
+Proof.
+  intros H. unfold client_eth_preimage, eth_signed_preimage. rewrite H. reflexivity.
+Qed.
+
+(* ------------------------------------------------------------------ inactivity claims *)
+Lemma claim_preimage_eq chainid nonce x y inactive hbf wallet sigs k pk :
+  x < two256 -> y < two256 ->
+  assemble_claim wallet inactive sigs hbf = Ok k ->
+  pubkey_chain_format x y = Some pk ->
+  client_claim_preimage chainid nonce x y inactive hbf
+  = Some (contract_claim_preimage chainid nonce (wallet_x pk) (wallet_y pk) k)
+  /\ k_inactive k = inactive /\ k_hbf k = hbf /\ k_wallet k = wallet.
+Proof.
+  intros Hx Hy Ha Hpk. unfold assemble_claim in Ha.
+  destruct (sigs_chain_format sigs) as [[sg b]|]; [|discriminate]. inversion Ha; subst k; clear Ha.
+  cbn [k_inactive k_hbf k_wallet]. split; [|auto].
+  rewrite (pubkey_chain_format_ok _ _ Hx Hy) in Hpk. inversion Hpk; subst pk; clear Hpk.
+  unfold client_claim_preimage, marshal_uncompressed, contract_claim_preimage, wallet_x, wallet_y.
+  replace (x <? two256) with true by lia. replace (y <? two256) with true by lia.
+  cbn [andb tl k_inactive k_hbf]. rewrite key64_length. cbn [N.eqb Pos.eqb].
+  rewrite go_pack_eq, firstn_skipn. reflexivity.
+Qed.
+
+(* ------------------------------------------------------------------ the executable forms *)
+Lemma list_eqb_eq a : forall b, list_eqb a b = true -> a = b.
+Proof.
+  induction a as [|x a IH]; intros [|y b] H; cbn [list_eqb] in H; try discriminate; auto.
+  apply andb_true_iff in H as [E H]. apply N.eqb_eq in E. subst. f_equal. auto.
+Qed.
+Lemma valid_inb_sound p quorum i : valid_inb p quorum i = true -> valid_in p quorum i.
+Proof.
+  unfold valid_inb. cbv zeta. intros H.
+  repeat (apply andb_true_iff in H as [H ?]).
+  assert (Hop : sortN (i_operating i)
+                = filter (fun k => negb (memN k (i_misbehaved i))) (seqN 1 (length (i_members i))))
+    by (apply list_eqb_eq; assumption).
+  assert (Hond : NoDup (i_operating i)).
+  { eapply Permutation_NoDup; [apply sortN_perm|]. rewrite Hop.
+    apply sorted_lt_NoDup, filter_sorted, seqN_sorted. }
+  unfold valid_in. cbv zeta. repeat split; try lia; auto using nodupb_NoDup.
+  - rewrite forallb_forall in H8. apply H8 in H14. unfold in_range in H14. lia.
+  - rewrite forallb_forall in H8. apply H8 in H14. unfold in_range in H14. lia.
+  - apply (Permutation_in _ (Permutation_sym (sortN_perm _))) in H14. rewrite Hop in H14.
+    apply filter_In in H14 as [H14 _]. apply seqN_In in H14. lia.
+  - apply (Permutation_in _ (Permutation_sym (sortN_perm _))) in H14. rewrite Hop in H14.
+    apply filter_In in H14 as [H14 _]. apply seqN_In in H14. unfold lenN. lia.
+  - apply (Permutation_in _ (Permutation_sym (sortN_perm _))) in H14. rewrite Hop in H14.
+    apply filter_In in H14 as [_ H14]. intros Hin. apply memN_In in Hin. rewrite Hin in H14. discriminate.
+  - intros [Hr Hn]. apply (Permutation_in _ (sortN_perm _)). rewrite Hop.
+    apply filter_In. split; [apply seqN_In; unfold lenN in *; lia|].
+    destruct (memN k (i_misbehaved i)) eqn:E; [apply memN_In in E; contradiction | reflexivity].
+  - rewrite forallb_forall in H5. apply H5 in H14. cbn [fst snd] in H14.
+    apply andb_true_iff in H14 as [Hm _]. apply memN_In. assumption.
+  - rewrite forallb_forall in H5. apply H5 in H14. cbn [fst snd] in H14.
+    apply andb_true_iff in H14 as [_ Hl]. lia.
+Qed.
+
+(* ------------------------------------------------------------------ non-vacuity *)
+(* a group of four, member 3 misbehaved, members 4, 1, 2 support the result (quorum 3) *)
+Definition ex_params : params := {| groupSize := 4; groupThreshold := 3; activeThreshold := 3 |}.
+Definition ex_in : dkg_in :=
+  {| i_chainid := 1; i_start := 1000; i_x := 5; i_y := 2 ^ 255 + 7;
+     i_members := [70; 80; 70; 90]; i_submitter := 2;
+     i_operating := [4; 1; 2]; i_misbehaved := [3];
+     i_sigs := [(4, repeat 4 65); (1, repeat 1 65); (2, repeat 2 65)] |}.
+Example ex_valid : valid_in ex_params 3 ex_in.
+Proof. apply valid_inb_sound. vm_compute. reflexivity. Qed.
+Example ex_result :
+  match assemble ex_in with
+  | Ok a => a_misbehaved a = [3] /\ a_signing a = [1; 2; 4]
+            /\ a_sigs a = repeat 1 65 ++ repeat 2 65 ++ repeat 4 65
+            /\ a_mh_pre a = abi_encode [AArr [70; 80; 90]]
+            /\ contract_group_members (a_members a) (a_misbehaved a) = Some [70; 80; 90]
+  | _ => False
+  end.
+Proof. vm_compute. repeat split; reflexivity. Qed.
+(* the contract rejects what a client that forgot to sort would send *)
+Example ex_unsorted_rejected :
+  validate_fields {| groupSize := 5; groupThreshold := 3; activeThreshold := 3 |}
+                  (repeat 1 64) [4; 2] (repeat 0 195) [1; 3; 5] = BadMisbehaved.
+Proof. vm_compute. reflexivity. Qed.
+
+(* ------------------------------------------------------------------ statements used by Props *)
+Lemma assembled_indices p quorum i : valid_in p quorum i ->
+  exists a, assemble i = Ok a /\
+    StronglySorted N.lt (a_misbehaved a) /\
+    Forall (fun m => 1 <= m <= lenN (i_members i)) (a_misbehaved a) /\
+    Permutation (a_misbehaved a) (i_misbehaved i) /\
+    StronglySorted N.lt (a_signing a) /\
+    Forall (fun m => 1 <= m <= lenN (i_members i)) (a_signing a) /\
+    Permutation (a_signing a) (map fst (i_sigs i)) /\
+    a_sigs a = concat (map (fun k => assoc k (i_sigs i)) (a_signing a)) /\
+    lenN (a_sigs a) = 65 * lenN (a_signing a).
+Proof.
+  intros Hv. exists (model_result i).
+  destruct (assemble_spec p quorum i Hv) as [Ha _].
+  destruct (result_sorted_in_range p quorum i Hv) as (H1 & H2 & H3 & H4).
+  split; [exact Ha|]. split; [exact H1|]. split; [exact H2|].
+  split; [apply sortN_perm|]. split; [exact H3|]. split; [exact H4|].
+  split; [apply sortN_perm|]. split; [reflexivity|].
+  cbn [model_result a_sigs a_signing].
+  destruct (sigs_chain_format_ok _ (sigs65 p quorum i Hv)) as [_ ->].
+  rewrite lenN_sortN, lenN_map. reflexivity.
+Qed.
+Lemma list_eqb_refl a : list_eqb a a = true.
+Proof. induction a as [|x a IH]; cbn [list_eqb]; [reflexivity|]. rewrite N.eqb_refl, IH. reflexivity. Qed.
+Lemma members_hash_preimage p quorum i : valid_in p quorum i ->
+  exists a, assemble i = Ok a /\
+    contract_members_preimage (a_members a) (a_misbehaved a) = Some (a_mh_pre a) /\
+    forall keccak, validate_members_hash keccak (a_members a) (a_misbehaved a) (keccak (a_mh_pre a))
+                   = Some true.
+Proof.
+  intros Hv. exists (model_result i).
+  pose proof (result_members_preimage p quorum i Hv) as Hm.
+  split; [exact (proj1 (assemble_spec p quorum i Hv))|]. split; [exact Hm|].
+  intros keccak. unfold validate_members_hash. rewrite Hm, list_eqb_refl. reflexivity.
+Qed.
